@@ -244,6 +244,11 @@ def norm(t):
         return t
     if t in _norm_memo:
         return _norm_memo[t]
+    if t[0] == "call" and t[1] == ("global", "numpy.log1p") and len(t[2]) == 1 and not t[3]:
+        # log1p(y) IS ln(1 + y); which spelling a numerically delicate place uses is the business of the ':stable' obligations
+        r = norm(("call", ("global", "numpy.log"), (("bin", "+", ("const", 1), t[2][0]),), ()))
+        _norm_memo[t] = r
+        return r
     if is_arith(t):
         r = rat_term(to_rat(t, norm))
     elif t[0] in ("const", "global", "param", "self", "unknown", "idx", "func", "q", "poly", "rat"):
